@@ -36,6 +36,11 @@ def run_case(case, rng):
     from mon.ref.pomdp import PModel
 
     sp = GP.random_pomdp(rng, gamma=rng.choice([0.5, 0.8, 0.9, 0.95]))
+    if rng.random() < 0.15:
+        # large reward magnitudes (values of 1e4..1e5 against a threshold of 0.1 / 0.01)
+        for k_ in sp.R:
+            sp.R[k_] = sp.R[k_] * 1000.0
+        sp.meta["reward_scale"] = 1000.0
     pomdp = Bd.build_pomdp(sp, explicit=rng.random() < 0.5)
     S, A, OL = list(pomdp.state_list), list(pomdp.action_list), list(pomdp.observation_list)
     if set(S) != set(sp.states):
@@ -45,6 +50,8 @@ def run_case(case, rng):
         raise Inconclusive("reference MDP solve not certified")
     gamma = sp.gamma
     eps = rng.choice([0.1, 0.01])
+    if sp.gamma <= 0.5 and rng.random() < 0.3:
+        eps = rng.choice([1e-4, 1e-6])       # thresholds far below any relative float tolerance on the values
     horizon = rng.choice([None, None, 3, 10, 1, 2])
     minexp = rng.choice([1, 2, 4, 6])
     special = sp.meta.get("special")
@@ -191,7 +198,10 @@ def run_case(case, rng):
             case.check(set(got) == best and all(abs(p - 1.0 / len(best)) <= 1e-12 for p in got.values()),
                        f"{nm}:action_dist-not-uniform-over-own-maximisers", lambda: f"b={b.tolist()}: {got!r} vs {best!r} {av!r}", **facts)
     # ---- point-based residual at the used beliefs when the inner loop stopped early ------------------------------
-    if horizon is not None and k < horizon - 1:
+    # (with horizon=None the sweep budget is the documented ceil(log(eps/(rmax-rmin))/log(gamma)))
+    H_eff = horizon if horizon is not None else int(np.ceil(np.log(eps / (sar.max() - sar.min())) / np.log(gamma)))
+    if k < H_eff - 1:
+        case.count("early_stops_checked")
         for b in used:
             bk = M.backup(np.array(b, dtype=float), last["alphas"])
             cur_v = float((last["alphas"] @ b).max())
